@@ -181,7 +181,7 @@ func (sw *SprayAndWait) SenderForBundle(bp BundleDescriptor) (css []cla.Converge
 	return
 }
 
-// ReportFailure re-increments remaining copies if delivery was unsuccessful.
+// ReportFailure re-increments remaining copies if the transmission to a peer selected by SenderForBundle was unsuccessful.
 func (sw *SprayAndWait) ReportFailure(bp BundleDescriptor, sender cla.ConvergenceSender) {
 	log.WithFields(log.Fields{
 		"bundle":  bp.ID(),
@@ -203,11 +203,12 @@ func (sw *SprayAndWait) ReportFailure(bp BundleDescriptor, sender cla.Convergenc
 
 	verifPoint("SprayAndWait.ReportFailure:read")
 
-	metadata.remainingCopies = metadata.remainingCopies + 1
-
+	// Only a peer selected by SenderForBundle took a copy which it can give back. A failed direct delivery to the
+	// bundle's destination is reported as well, but was never charged.
 	for i := 0; i < len(metadata.sent); i++ {
 		if metadata.sent[i] == sender.GetPeerEndpointID() {
 			metadata.sent = append(metadata.sent[:i], metadata.sent[i+1:]...)
+			metadata.remainingCopies = metadata.remainingCopies + 1
 			break
 		}
 	}
